@@ -4,7 +4,7 @@ CONSTANTS
   NTab = 1
   NSid = 6
   Devs = {}
-  Acts = {"NewVec", "NewTable", "ColView", "Rename", "RenameColumn", "Lookup", "SetAttr"}
+  Acts = {"NewVec", "NewTable", "ColView", "Rename", "RenameColumn", "Lookup", "SetAttr", "WriteByName", "Dir"}
   Lens = {1}
   Vals = {0, 1}
   NameSet = {"-", "a", "b"}
